@@ -1,5 +1,7 @@
 /-
-  GM.Spec.Html — specification-side definitions about HTML text, written independently of goldmark's code.
+  GM.Spec.Html — specification-side definitions about HTML text, written independently of goldmark's code:
+  the four-reference decoder used by C19, and a strict deterministic tokenizer with the structural
+  predicates of C03 (well-nestedness, vocabulary, inert text and attribute values, XML well-formedness).
 -/
 import GM.Model.Basic
 namespace GM.Spec
@@ -25,5 +27,147 @@ def ampsOK4 : Bytes → Bool
 
 /-- no raw `<`, `>`, `"` -/
 def noRawSpecial (b : Bytes) : Bool := b.all (fun c => c != 60 && c != 62 && c != 34)
+
+/-! ### character references -/
+
+def isDigitB (c : UInt8) : Bool := 48 ≤ c && c ≤ 57
+def isHexB (c : UInt8) : Bool := isDigitB c || (97 ≤ c && c ≤ 102) || (65 ≤ c && c ≤ 70)
+def isAlphaB (c : UInt8) : Bool := (97 ≤ c && c ≤ 122) || (65 ≤ c && c ≤ 90)
+def isAlnumB (c : UInt8) : Bool := isAlphaB c || isDigitB c
+
+/-- `p+ ;` at the head of the input -/
+def runThenSemi (p : UInt8 → Bool) (s : Bytes) : Bool :=
+  match s.dropWhile p with
+  | 59 :: _ => !(s.takeWhile p).isEmpty
+  | _ => false
+
+/-- the bytes after an `&` spell a well-formed character reference: `name;`, `#digits;` or `#xhex;` -/
+def refAfterAmp : Bytes → Bool
+  | 35 :: 120 :: r => runThenSemi isHexB r
+  | 35 :: 88 :: r => runThenSemi isHexB r
+  | 35 :: r => runThenSemi isDigitB r
+  | r => runThenSemi isAlnumB r
+
+/-- every `&` starts a well-formed character reference -/
+def ampsOK : Bytes → Bool
+  | [] => true
+  | c :: r => (c != 38 || refAfterAmp r) && ampsOK r
+
+/-! ### tokens -/
+
+inductive Tok where
+  | startTag (name : Bytes) (attrs : List (Bytes × Bytes)) (selfClose : Bool)
+  | endTag (name : Bytes)
+  | text (b : Bytes)
+  | comment            -- the one allowed comment, `<!-- raw HTML omitted -->`
+deriving Repr, BEq, DecidableEq
+
+def placeholder : Bytes := strBytes "<!-- raw HTML omitted -->"
+
+def isTagNameB (c : UInt8) : Bool := (97 ≤ c && c ≤ 122) || isDigitB c
+def isAttrStartB (c : UInt8) : Bool := isAlphaB c || c == 95 || c == 58
+def isAttrNameB (c : UInt8) : Bool := isAlnumB c || c == 95 || c == 58 || c == 46 || c == 45
+
+/-- ` name="value"` repeated, then `>` or ` />`. Returns attributes, self-close flag and the rest.
+    `fuel` bounds the number of attributes (each consumes at least four bytes). -/
+def lexAttrs : Nat → Bytes → Option (List (Bytes × Bytes) × Bool × Bytes)
+  | _, 62 :: r => some ([], false, r)
+  | _, 32 :: 47 :: 62 :: r => some ([], true, r)
+  | fuel + 1, 32 :: c :: r =>
+    if isAttrStartB c then
+      let name := c :: r.takeWhile isAttrNameB
+      match r.dropWhile isAttrNameB with
+      | 61 :: 34 :: r2 =>
+        let v := r2.takeWhile (· != 34)
+        match r2.dropWhile (· != 34) with
+        | 34 :: r3 =>
+          match lexAttrs fuel r3 with
+          | some (as, sc, rest) => some ((name, v) :: as, sc, rest)
+          | none => none
+        | _ => none
+      | _ => none
+    else none
+  | _, _ => none
+
+/-- one token from a non-empty input -/
+def lexOne (s : Bytes) : Option (Tok × Bytes) :=
+  match s with
+  | [] => none
+  | 60 :: r =>
+    if startsWith placeholder s then some (.comment, s.drop placeholder.length)
+    else match r with
+      | 47 :: r1 =>
+        let name := r1.takeWhile isTagNameB
+        match r1.dropWhile isTagNameB with
+        | 62 :: r2 => if name.isEmpty then none else some (.endTag name, r2)
+        | _ => none
+      | _ =>
+        let name := r.takeWhile isTagNameB
+        if name.isEmpty then none
+        else match lexAttrs s.length (r.dropWhile isTagNameB) with
+          | some (as, sc, rest) => some (.startTag name as sc, rest)
+          | none => none
+  | _ => some (.text (s.takeWhile (· != 60)), s.dropWhile (· != 60))
+
+/-- the strict tokenizer; `none` = not in the language at all -/
+def tokenizeFuel : Nat → Bytes → Option (List Tok)
+  | _, [] => some []
+  | 0, _ => none
+  | fuel + 1, s =>
+    match lexOne s with
+    | some (t, rest) => if rest.length < s.length then (tokenizeFuel fuel rest).map (t :: ·) else none
+    | none => none
+
+def tokenize (s : Bytes) : Option (List Tok) := tokenizeFuel s.length s
+
+/-! ### predicates on token lists -/
+
+def voidTags : List Bytes := [strBytes "hr", strBytes "br", strBytes "img", strBytes "input"]
+
+/-- stack discipline: every non-void start tag is closed by the matching end tag, in order; void elements
+    have no end tag. Returns the remaining open stack. -/
+def nestStep (stack : List Bytes) : Tok → Option (List Bytes)
+  | .startTag n _ _ => if voidTags.contains n then some stack else some (n :: stack)
+  | .endTag n =>
+    match stack with
+    | top :: rest => if top == n && !voidTags.contains n then some rest else none
+    | [] => none
+  | _ => some stack
+
+def nestRun : List Bytes → List Tok → Option (List Bytes)
+  | st, [] => some st
+  | st, t :: ts => match nestStep st t with
+    | some st' => nestRun st' ts
+    | none => none
+
+def wellNested (ts : List Tok) : Bool := nestRun [] ts == some []
+
+/-- text and attribute values are inert: no raw `<` in text (by tokenization), no raw `"` in values (by
+    tokenization), and every `&` in either begins a well-formed character reference -/
+def inertTok : Tok → Bool
+  | .text b => ampsOK b && !b.contains 60
+  | .startTag _ as _ => as.all fun a => ampsOK a.2 && !a.2.contains 34
+  | _ => true
+
+def inert (ts : List Tok) : Bool := ts.all inertTok
+
+/-- HTML5 serialisation: only void elements carry the self-closing slash (XHTML: all of them do) -/
+def voidsOK (xhtml : Bool) : Tok → Bool
+  | .startTag n _ sc => if voidTags.contains n then sc == xhtml else !sc
+  | _ => true
+
+/-- additionally needed for XML well-formedness: no `<` in attribute values, no duplicate attribute names -/
+def xmlTok : Tok → Bool
+  | .startTag _ as _ => as.all (fun a => !a.2.contains 60) && (as.map (·.1)).eraseDups.length == as.length
+  | _ => true
+
+/-- vocabulary check, parametrised by the allowed attribute names per tag -/
+def vocabTok (allowed : Bytes → Option (List Bytes)) : Tok → Bool
+  | .startTag n as _ =>
+    match allowed n with
+    | some names => as.all fun a => names.contains a.1 || startsWith (strBytes "data-") a.1
+    | none => false
+  | .endTag n => (allowed n).isSome
+  | _ => true
 
 end GM.Spec
